@@ -1,9 +1,10 @@
 #!/bin/bash
 # re-runs the false-alarm regression set of seeded/benign (applies each patch to /repo, runs the check, reverts)
 cd /verif
-for b in b1_rename_local:C01 b2_reorder_lets:C02 b3_min_match:C03 b4_tow_rem:C20 b5_next_flip:C15 b6_is_leap_reorder:C08 b7_epoch_floor_local:C14 b8_match_arm_order:C08 b9_floor_div_mul:C14 b10_iflet_normalize:C02 b11_extract_helper:C02; do
+for b in b1_rename_local:C01 b2_reorder_lets:C02 b3_min_match:C03 b4_tow_rem:C20 b5_next_flip:C15 b6_is_leap_reorder:C08 b7_epoch_floor_local:C14 b8_match_arm_order:C08 b9_floor_div_mul:C14 b10_iflet_normalize:C02 b11_extract_helper:C02 b12_tai_days_div:C17 b13_with_hms_strict_locals:C16 b14_at_noon_local:C16 b15_from_unix_seconds_via_duration:C17 b16_to_seconds_div:C18 b17_duration_display_loop:C11 b18_day_of_year_commute:C20; do
   n=${b%%:*}; p=${b##*:}
-  git -C /repo apply seeded/benign/$n.diff || { echo "$n: patch does not apply"; continue; }
+  [ -n "$ONLY" ] && ! echo " $ONLY " | grep -q " $n " && continue
+  git -C /repo apply /verif/seeded/benign/$n.diff || { echo "$n: patch does not apply"; continue; }
   VERIF_EVIDENCE_DIR=/verif/build/seed-evidence ./check $p > /tmp/benign_$n.log 2>&1; rc=$?
   git -C /repo checkout -- .
   echo "$n $p exit=$rc $( [ $rc = 1 ] && echo FALSE-ALARM )"
